@@ -830,5 +830,345 @@ theorem axle_relays_newest (w : World F) (is : List Nat) (i : Nat) (hi : i ∈ i
         have := hmax r (List.mem_map.2 ⟨i, hi, hr⟩)
         omega
 
+/-! ### F. chains of one-degree-of-freedom devices -/
+
+/-- a one-degree-of-freedom device with an entry terminal `a` and an exit terminal `b`:
+inverter (side 1 = `a`), gear train (side 1 = `a`), or an axle over ANY terminal list `is` containing both -/
+inductive Dev1 (F : Type) where
+  | inv (a b : Nat)
+  | gear (ratio : F) (a b : Nat)
+  | axle (is : List Nat) (a b : Nat)
+
+namespace Dev1
+def fst : Dev1 F → Nat
+  | inv a _ => a | gear _ a _ => a | axle _ a _ => a
+def snd : Dev1 F → Nat
+  | inv _ b => b | gear _ _ b => b | axle _ _ b => b
+/-- all terminals of the device -/
+def terms : Dev1 F → List Nat
+  | inv a b => [a, b] | gear _ a b => [a, b] | axle is _ _ => is
+/-- the device's `update` -/
+def update : Dev1 F → World F → World F
+  | inv a b, w => Invert.update w a b
+  | gear r a b, w => GearTrain.update r w a b
+  | axle is _ _, w => Axle.update w is
+/-- how a command value is mapped from the entry to the exit side -/
+def mapCmd : Dev1 F → Command F → Command F
+  | inv _ _, c => Command.neg c
+  | gear r _ _, c => Command.mulF c r
+  | axle _ _ _, c => c
+/-- entry and exit are two different terminals of the device -/
+def WF (d : Dev1 F) : Prop := d.fst ∈ d.terms ∧ d.snd ∈ d.terms ∧ d.fst ≠ d.snd
+end Dev1
+
+/-- all terminals of all devices of a chain -/
+def chainTerms : List (Dev1 F) → List Nat
+  | [] => []
+  | d :: ds => d.terms ++ chainTerms ds
+
+/-- update the devices in order along the chain -/
+def runChain (w : World F) : List (Dev1 F) → World F
+  | [] => w
+  | d :: ds => runChain (d.update w) ds
+
+/-- the composed value map, entry of the first device → exit of the last -/
+def chainMap : List (Dev1 F) → Command F → Command F
+  | [], c => c
+  | d :: ds, c => chainMap ds (d.mapCmd c)
+
+/-- exit terminal of the last device -/
+def farEnd (d : Dev1 F) : List (Dev1 F) → Nat
+  | [] => d.snd
+  | d' :: ds => farEnd d' ds
+
+/-- A chain in the world `w` (only the links of `w` matter): every device has distinct entry/exit among its terminals;
+the entry of each next device is connected to the exit of the previous one; devices share no terminal; apart from that
+one connection no terminal of a later device is wired to a terminal of an earlier one; and the far end is not wired
+back into its own device. -/
+def ChainOK (w : World F) : List (Dev1 F) → Prop
+  | [] => True
+  | [d] => d.WF ∧ ∀ p ∈ d.terms, (w.t d.snd).other ≠ some p
+  | d :: d' :: rest =>
+    d.WF ∧ (w.t d'.fst).other = some d.snd ∧ (∀ x ∈ d.terms, x ∉ chainTerms (d' :: rest)) ∧
+    (∀ j ∈ chainTerms (d' :: rest), j ≠ d'.fst → ∀ p ∈ d.terms, (w.t j).other ≠ some p) ∧
+    ChainOK w (d' :: rest)
+
+theorem ChainOK.congr {w w' : World F} (h : ∀ j, (w'.t j).other = (w.t j).other) :
+    ∀ ds : List (Dev1 F), ChainOK w ds → ChainOK w' ds
+  | [], _ => trivial
+  | [d], hc => ⟨hc.1, fun p hp => by rw [h]; exact hc.2 p hp⟩
+  | d :: d' :: rest, hc =>
+    ⟨hc.1, by rw [h]; exact hc.2.1, hc.2.2.1, fun j hj hne p hp => by rw [h]; exact hc.2.2.2.1 j hj hne p hp,
+      ChainOK.congr h (d' :: rest) hc.2.2.2.2⟩
+
+theorem ChainOK.head_WF {w : World F} {d : Dev1 F} {ds : List (Dev1 F)} (h : ChainOK w (d :: ds)) : d.WF := by
+  cases ds with
+  | nil => exact h.1
+  | cons d' rest => exact h.1
+
+/-- if exactly one read is present, the axle's fold picks it -/
+theorem newestOf_single {α : Type} (reads : List (Option (Datum α))) (c : Datum α) (hc : some c ∈ reads)
+    (hall : ∀ r ∈ reads, r = none ∨ r = some c) : newestOf reads = some c := by
+  cases h : newestOf reads with
+  | none => exact absurd ((newestOf_spec reads).1.1 h _ hc) (by simp)
+  | some d =>
+    rcases hall _ (newestOf_max reads d h).1 with e | e
+    · exact absurd e (by simp)
+    · exact e
+
+/-- F (one device). If the entry terminal reads the command `c` and no other terminal of the device reads any, then
+after the device's update the exit terminal's own slot holds `c` with the issuer's timestamp and its value mapped
+(negated / times the ratio / unchanged); slots outside the device and all links are untouched. -/
+theorem dev_relays (d : Dev1 F) (hwf : d.WF) (w : World F) (c : Datum (Command F))
+    (hc : w.getCommand d.fst = some c) (hnone : ∀ j ∈ d.terms, j ≠ d.fst → w.getCommand j = none) :
+    ((d.update w).t d.snd).command = some ⟨c.time, d.mapCmd c.value⟩ ∧
+    (∀ j, j ∉ d.terms → ((d.update w).t j).command = (w.t j).command) ∧
+    (∀ j, ((d.update w).t j).other = (w.t j).other) := by
+  obtain ⟨hfm, hsm, hne⟩ := hwf
+  cases d with
+  | inv a b =>
+    simp only [Dev1.fst, Dev1.snd, Dev1.terms, Dev1.update, Dev1.mapCmd] at *
+    have hb : w.getCommand b = none := hnone b (by simp) (Ne.symm hne)
+    obtain ⟨ho, hn, _, hs⟩ := invert_relays_newest_slots w a b hne
+    have hwin : invertWinner (w.getCommand a) (w.getCommand b) = some c := by rw [hc, hb]; rfl
+    refine ⟨(hs c hwin).2, fun j hj => hn j (fun e => hj (by simp [e])) (fun e => hj (by simp [e])), ho⟩
+  | gear r a b =>
+    simp only [Dev1.fst, Dev1.snd, Dev1.terms, Dev1.update, Dev1.mapCmd] at *
+    have hb : w.getCommand b = none := hnone b (by simp) (Ne.symm hne)
+    obtain ⟨ho, _, h1, _⟩ := gear_relays_newest_slots r w a b
+    obtain ⟨hs, hn⟩ := h1 c hc (by rw [hc, hb]; rfl)
+    exact ⟨hs, fun j hj => hn j (fun e => hj (by simp [e])), ho⟩
+  | axle is a b =>
+    simp only [Dev1.fst, Dev1.snd, Dev1.terms, Dev1.update, Dev1.mapCmd] at *
+    obtain ⟨ho, hn, _, hs⟩ := axle_relays_newest_slots w is
+    have hm : newestOf (is.map w.getCommand) = some c := by
+      refine newestOf_single _ c (List.mem_map.2 ⟨a, hfm, hc⟩) (fun r hr => ?_)
+      obtain ⟨j, hj, e⟩ := List.mem_map.1 hr
+      by_cases hja : j = a
+      · right; rw [← e, hja, hc]
+      · left; rw [← e]; exact hnone j hj hja
+    exact ⟨hs c hm b hsm, hn, ho⟩
+
+theorem chainMap_kind (ds : List (Dev1 F)) (c : Command F) : (chainMap ds c).kind = c.kind := by
+  induction ds generalizing c with
+  | nil => rfl
+  | cons d ds ih =>
+    rw [chainMap, ih]
+    cases d with
+    | inv a b => exact neg_kind c
+    | gear r a b => exact mulF_kind c r
+    | axle is a b => rfl
+
+/-- F (chain, ANY length; inverters, gear trains and axles of any size). If the entry terminal of the first device
+reads the command `c` and no other terminal of the chain reads any command, then after updating the devices in order
+along the chain the far terminal's own slot holds — and the far terminal reads — a command with the issuer's timestamp,
+the issuer's kind (`chainMap_kind`) and the value obtained by applying the per-device maps in order. -/
+theorem chain_relays (d : Dev1 F) (ds : List (Dev1 F)) (w : World F) (c : Datum (Command F))
+    (hok : ChainOK w (d :: ds)) (hc : w.getCommand d.fst = some c)
+    (hnone : ∀ j ∈ chainTerms (d :: ds), j ≠ d.fst → w.getCommand j = none) :
+    ((runChain w (d :: ds)).t (farEnd d ds)).command = some ⟨c.time, chainMap (d :: ds) c.value⟩ ∧
+    (runChain w (d :: ds)).getCommand (farEnd d ds) = some ⟨c.time, chainMap (d :: ds) c.value⟩ := by
+  induction ds generalizing d w c with
+  | nil =>
+    show ((d.update w).t d.snd).command = some ⟨c.time, d.mapCmd c.value⟩ ∧
+      (d.update w).getCommand d.snd = some ⟨c.time, d.mapCmd c.value⟩
+    obtain ⟨hwf, hfree⟩ := hok
+    obtain ⟨hs, hn, ho⟩ := dev_relays d hwf w c hc
+      (fun j hj => hnone j (by simpa [chainTerms] using hj))
+    refine ⟨hs, getCommand_eq_own _ _ _ hs (fun g hg => ?_)⟩
+    -- the far terminal's partner lies outside the device and held nothing before
+    have hb : w.getCommand d.snd = none :=
+      hnone _ (by simpa [chainTerms] using hwf.2.1) (Ne.symm hwf.2.2)
+    have hpn := ((getCommand_none_iff w d.snd).1 hb).2
+    simp only [World.partnerCommand, ho] at hg
+    simp only [World.partnerCommand] at hpn
+    cases hp : (w.t d.snd).other with
+    | none => rw [hp] at hg; exact absurd hg (by simp)
+    | some p =>
+      rw [hp] at hg hpn; simp only [] at hg hpn
+      rw [hn p (fun hm => hfree p hm hp), hpn] at hg
+      exact absurd hg (by simp)
+  | cons d' rest ih =>
+    obtain ⟨hwf, hlink, hdisj, hiso, hrest⟩ := hok
+    obtain ⟨hs, hn, ho⟩ := dev_relays d hwf w c hc
+      (fun j hj => hnone j (by simp only [chainTerms]; exact List.mem_append_left _ hj))
+    have hin : ∀ j ∈ chainTerms (d' :: rest), j ∈ chainTerms (d :: d' :: rest) :=
+      fun j hj => by simp only [chainTerms] at hj ⊢; exact List.mem_append_right _ hj
+    have hnotd : ∀ j ∈ chainTerms (d' :: rest), j ∉ d.terms := fun j hj hm => hdisj j hm hj
+    have hne_fst : ∀ j ∈ chainTerms (d' :: rest), j ≠ d.fst := fun j hj e => hnotd j hj (e ▸ hwf.1)
+    have hfst' : d'.fst ∈ chainTerms (d' :: rest) := by
+      simp only [chainTerms]; exact List.mem_append_left _ (ChainOK.head_WF hrest).1
+    -- the next device's entry terminal now reads the relayed command through its connection
+    have hc' : (d.update w).getCommand d'.fst = some ⟨c.time, d.mapCmd c.value⟩ := by
+      have hown : (w.t d'.fst).command = none :=
+        ((getCommand_none_iff w _).1 (hnone _ (hin _ hfst') (hne_fst _ hfst'))).1
+      rw [getCommand_eq_partner _ _ (by rw [hn _ (hnotd _ hfst')]; exact hown)]
+      simp only [World.partnerCommand, ho, hlink]; exact hs
+    -- every other later terminal still reads nothing
+    have hnone' : ∀ j ∈ chainTerms (d' :: rest), j ≠ d'.fst → (d.update w).getCommand j = none := by
+      intro j hj hjne
+      obtain ⟨hown, hpar⟩ := (getCommand_none_iff w j).1 (hnone j (hin j hj) (hne_fst j hj))
+      refine (getCommand_none_iff _ j).2 ⟨by rw [hn j (hnotd j hj)]; exact hown, ?_⟩
+      simp only [World.partnerCommand, ho] at hpar ⊢
+      cases hp : (w.t j).other with
+      | none => rfl
+      | some p =>
+        rw [hp] at hpar; simp only [] at hpar ⊢
+        rw [hn p (fun hm => hiso j hj hjne p hm hp)]; exact hpar
+    exact ih d' (d.update w) ⟨c.time, d.mapCmd c.value⟩ (ChainOK.congr ho _ hrest) hc' hnone'
+
+/-- F (what an outside observer sees). A terminal `e` outside the chain that is connected to the far end and has no
+command of its own reads the relayed command. -/
+theorem chain_relays_external (d : Dev1 F) (ds : List (Dev1 F)) (w : World F) (c : Datum (Command F))
+    (hok : ChainOK w (d :: ds)) (hc : w.getCommand d.fst = some c)
+    (hnone : ∀ j ∈ chainTerms (d :: ds), j ≠ d.fst → w.getCommand j = none)
+    (e : Nat) (he : ((runChain w (d :: ds)).t e).other = some (farEnd d ds))
+    (hown : ((runChain w (d :: ds)).t e).command = none) :
+    (runChain w (d :: ds)).getCommand e = some ⟨c.time, chainMap (d :: ds) c.value⟩ := by
+  rw [getCommand_eq_partner _ _ hown]
+  simp only [World.partnerCommand, he]
+  exact (chain_relays d ds w c hok hc hnone).1
+
+/-- F, as stated: a command present only in the own slot of the first terminal of the first device (every other command
+slot of the world empty), no chain terminal other than that one wired to it. -/
+theorem chain_relays_fresh (d : Dev1 F) (ds : List (Dev1 F)) (w : World F) (c : Datum (Command F))
+    (hok : ChainOK w (d :: ds)) (hc : (w.t d.fst).command = some c)
+    (hempty : ∀ j, j ≠ d.fst → (w.t j).command = none)
+    (hentry : ∀ j ∈ chainTerms (d :: ds), j ≠ d.fst → (w.t j).other ≠ some d.fst) :
+    (runChain w (d :: ds)).getCommand (farEnd d ds) = some ⟨c.time, chainMap (d :: ds) c.value⟩ := by
+  refine (chain_relays d ds w c hok ?_ ?_).2
+  · refine getCommand_eq_own _ _ _ hc (fun g hg => ?_)
+    simp only [World.partnerCommand] at hg
+    cases hp : (w.t d.fst).other with
+    | none => rw [hp] at hg; exact absurd hg (by simp)
+    | some p =>
+      rw [hp] at hg; simp only [] at hg
+      by_cases e : p = d.fst
+      · rw [e, hc] at hg; cases Option.some.inj hg; exact Int.le_refl _
+      · rw [hempty p e] at hg; exact absurd hg (by simp)
+  · intro j hj hne
+    refine (getCommand_none_iff w j).2 ⟨hempty j hne, ?_⟩
+    simp only [World.partnerCommand]
+    cases hp : (w.t j).other with
+    | none => rfl
+    | some p =>
+      simp only []
+      exact hempty p (fun e => hentry j hj hne (by rw [hp, e]))
+
 end S
+
+/-! ### tier R: the composed map is multiplication by the product of the ratios -/
+section R
+variable {F : Type} [Field F] [LinearOrder F] [IsStrictOrderedRing F] [FloatLike F] [ExactScalar F]
+
+/-- the ratio of a device, entry → exit: `-1` for an inverter, the gear ratio, `1` for an axle -/
+def Dev1.ratio : Dev1 F → F
+  | .inv _ _ => -1
+  | .gear r _ _ => r
+  | .axle _ _ _ => 1
+
+/-- F (tier R): over an ordered field the value that reaches the far end is the issued value times the product of the
+ratios along the chain (an inverter counting as `-1`, an axle as `1`), of the same kind. -/
+theorem chain_scale_is_product (ds : List (Dev1 F)) (c : Command F) :
+    (chainMap ds c).kind = c.kind ∧ (chainMap ds c).raw = c.raw * (ds.map Dev1.ratio).prod := by
+  refine ⟨chainMap_kind ds c, ?_⟩
+  induction ds generalizing c with
+  | nil => simp [chainMap]
+  | cons d ds ih =>
+    rw [chainMap, ih, List.map_cons, List.prod_cons]
+    cases d with
+    | inv a b => simp only [Dev1.mapCmd, Dev1.ratio, neg_raw]; ring
+    | gear r a b => simp only [Dev1.mapCmd, Dev1.ratio, mulF_raw]; ring
+    | axle is a b => simp only [Dev1.mapCmd, Dev1.ratio]; ring
+
+/-- F (tier R, end to end): the command read at the far end of a chain of any length has the issuer's timestamp, the
+issuer's kind, and the issuer's value scaled by the product of the ratios. -/
+theorem chain_relays_scaled (d : Dev1 F) (ds : List (Dev1 F)) (w : World F) (c : Datum (Command F))
+    (hok : ChainOK w (d :: ds)) (hc : w.getCommand d.fst = some c)
+    (hnone : ∀ j ∈ chainTerms (d :: ds), j ≠ d.fst → w.getCommand j = none) :
+    ∃ r, (runChain w (d :: ds)).getCommand (farEnd d ds) = some r ∧ r.time = c.time ∧
+      r.value.kind = c.value.kind ∧ r.value.raw = c.value.raw * ((d :: ds).map Dev1.ratio).prod :=
+  ⟨_, (chain_relays d ds w c hok hc hnone).2, rfl, (chain_scale_is_product (d :: ds) c.value).1,
+    (chain_scale_is_product (d :: ds) c.value).2⟩
+end R
+
+/-! ### non-vacuity: concrete instances over `Int` payloads -/
+section Examples
+/-- integers as a (law-free) scalar, for examples only -/
+local instance : FloatLike Int := ⟨id, id, fun _ _ => 1, fun x => x.natAbs⟩
+
+/-- device terminals 0 and 1, joined to outside terminals 2 and 3 which hold a velocity command issued at time 5 and
+a position command issued at time 9; terminal 4 is free -/
+def exW : World Int := ⟨5, fun
+  | 0 => ⟨none, none, some 2⟩
+  | 1 => ⟨none, none, some 3⟩
+  | 2 => ⟨none, some ⟨5, .velocity 3⟩, some 0⟩
+  | 3 => ⟨none, some ⟨9, .position 4⟩, some 1⟩
+  | _ => World.freshTerm⟩
+
+example : exW.getCommand 0 = some ⟨5, .velocity 3⟩ ∧ exW.getCommand 1 = some ⟨9, .position 4⟩ := ⟨rfl, rfl⟩
+-- inverter: side 2's command is newer; it is read negated on side 1 and as issued on side 2
+example : invertWinner (exW.getCommand 0) (exW.getCommand 1) = some ⟨9, .position (-4)⟩ := by rfl
+example : (Invert.update exW 0 1).getCommand 0 = some ⟨9, .position (-4)⟩ :=
+  (invert_relays_newest exW 0 1 (by decide)).1
+example : (Invert.update exW 0 1).getCommand 1 = some ⟨9, .position 4⟩ :=
+  invert_side2_roundtrip (F := Int) (fun x => by omega) exW 0 1 (by decide) ⟨9, .position 4⟩ rfl
+    (fun a h => by
+      have h' : exW.getCommand 0 = some ⟨5, .velocity 3⟩ := rfl
+      rw [h'] at h; cases h; decide)
+-- the outside terminals see it too
+example : (Invert.update exW 0 1).getCommand 2 = some ⟨9, .position (-4)⟩ := by rfl
+-- gear train with ratio 2: hypotheses of `gear_relays_newest` hold, side 2 wins, side 1 reads 4 / 2
+example : (exW.t 0).other ≠ some 0 ∧ (exW.t 0).other ≠ some 1 ∧ (exW.t 1).other ≠ some 0 ∧ (exW.t 1).other ≠ some 1 := by
+  decide
+example : gearReads 2 (exW.getCommand 0) (exW.getCommand 1) = (some ⟨9, .position 2⟩, some ⟨9, .position 4⟩) := by rfl
+example : (GearTrain.update 2 exW 0 1).getCommand 0 = some ⟨9, .position 2⟩ :=
+  (gear_relays_newest 2 exW 0 1 (by decide) (by decide) (by decide)).1
+example : gearSide1Wins (exW.getCommand 0) (exW.getCommand 1) = false := by rfl
+-- and the other way round (terminal roles swapped: side 1 = terminal 1 wins, side 2 reads 4 * 2)
+example : (GearTrain.update 2 exW 1 0).getCommand 0 = some ⟨9, .position 8⟩ :=
+  (gear_relays_newest 2 exW 1 0 (by decide) (by decide) (by decide)).2
+-- axle over three terminals, one of which sees nothing
+example : newestOf ([0, 4, 1].map exW.getCommand) = some ⟨9, .position 4⟩ := by rfl
+example : (Axle.update exW [0, 4, 1]).getCommand 4 = some ⟨9, .position 4⟩ :=
+  axle_relays_newest exW [0, 4, 1] 4 (by decide)
+-- ties: the first of the newest wins
+example : newestOf [some (⟨5, 1⟩ : Datum Int), none, some ⟨9, 2⟩, some ⟨9, 3⟩] = some ⟨9, 2⟩ := by decide
+example : ∀ x y, some x ∈ [some (⟨5, 1⟩ : Datum Int), none, some ⟨9, 2⟩] → some y ∈ [some (⟨5, 1⟩ : Datum Int), none, some ⟨9, 2⟩] →
+    x.time = y.time → x = y := by
+  intro x y hx hy
+  simp only [List.mem_cons, Option.some.injEq, List.mem_nil_iff, or_false, reduceCtorEq, false_or] at hx hy
+  rcases hx with rfl | rfl <;> rcases hy with rfl | rfl <;> decide
+-- getter lemmas' hypotheses
+example : (exW.t 2).command = some ⟨5, .velocity 3⟩ ∧ exW.partnerCommand 2 = none := ⟨rfl, rfl⟩
+-- differential: commands stay
+example : (Differential.update .equal exW 0 1 4).getCommand 0 = some ⟨5, .velocity 3⟩ := by rfl
+
+/-- a chain: inverter (0→1), gear train ×3 (2→3), axle over {4,5,6} (4→5); links 1–2 and 3–4; a velocity command
+issued at time 5 on terminal 0 -/
+def exC : World Int := ⟨7, fun
+  | 0 => ⟨none, some ⟨5, .velocity 7⟩, none⟩
+  | 1 => ⟨none, none, some 2⟩
+  | 2 => ⟨none, none, some 1⟩
+  | 3 => ⟨none, none, some 4⟩
+  | 4 => ⟨none, none, some 3⟩
+  | _ => World.freshTerm⟩
+def exDevs : List (Dev1 Int) := [.gear 3 2 3, .axle [4, 5, 6] 4 5]
+
+theorem exC_ok : ChainOK exC (.inv 0 1 :: exDevs) := by
+  simp [ChainOK, exDevs, Dev1.WF, Dev1.terms, Dev1.fst, Dev1.snd, chainTerms, exC, World.freshTerm]
+
+example : (runChain exC (.inv 0 1 :: exDevs)).getCommand 5 = some ⟨5, .velocity (-21)⟩ :=
+  chain_relays_fresh (.inv 0 1) exDevs exC ⟨5, .velocity 7⟩ exC_ok rfl
+    (fun j hj => by
+      simp only [Dev1.fst] at hj
+      match j, hj with
+      | 1, _ | 2, _ | 3, _ | 4, _ => rfl
+      | (n + 5), _ => rfl)
+    (fun j hj _ => by
+      simp only [chainTerms, exDevs, Dev1.terms, List.cons_append, List.nil_append, List.mem_cons, List.mem_nil_iff,
+        or_false] at hj
+      rcases hj with rfl | rfl | rfl | rfl | rfl | rfl | rfl <;> decide)
+end Examples
+
 end Rrtk.Thm.C13
